@@ -7,7 +7,7 @@ CLASSES = {"ends", "hang"}
 
 
 def run(ctx):
-    cov, viol = E.run_engine(ctx, "c01", ["plain"], 240, 6000, CLASSES)
+    cov, viol = E.run_engine(ctx, "c01", ["plain"], 240, 6000, CLASSES, small=(False, 8, 0))
     fcov, fviol = E.fold_sweep(ctx)
     cov["fold_sweep"] = fcov
     return {"coverage": cov, "violations": viol + fviol}
